@@ -251,6 +251,8 @@ class extract_visitor(NodeVisitor):
             if node.args.kwarg and node.args.kwarg.annotation:
                 self.visit(node.args.kwarg.annotation)
             node.returns and self.visit(node.returns)
+            for tp in getattr(node, 'type_params', []):
+                self.visit(tp)
 
         cur = self.flow
         scope = FuncScope(cur.scope, node, self.top)
@@ -284,6 +286,7 @@ class extract_visitor(NodeVisitor):
         self.visit_in_flow(node.bases, cur)
         for kw in getattr(node, 'keywords', []):
             self.visit_in_flow(kw.value, cur)
+        self.visit_in_flow(getattr(node, 'type_params', []), cur)
         scope = ClassScope(cur.scope, node, top=self.top)
         cur.add_name(scope)  # type: ignore[arg-type]  # TODO
         self.visit_in_flow(node.body, scope.flow)
